@@ -16,6 +16,31 @@ S = SCANNER + "::"
 JSON_ESCAPES = {'"': 0x22, "\\": 0x5C, "/": 0x2F, "b": 8, "f": 0xC, "n": 0xA, "r": 0xD, "t": 9}
 
 
+def adjacent_position_is_final(rep, F, rule="adjacent-value-position-is-final"):
+    """`"a" :1`, `[a] :b`: inside a flow collection a ':' that is not followed by a blank is still the value indicator when it sits exactly
+    where a quoted scalar or a closing bracket *and the blanks after it* ended (YAML 1.2.2 7.4.2: the JSON-like key may be separated
+    from ':' by white space).  The position is recorded in adjacent_value_allowed_at; it must be the cursor's index after the last
+    thing the fetcher consumes: no consuming call may follow the write."""
+    n = 0
+    for fk in (S + "fetch_flow_scalar", S + "fetch_flow_collection_end"):
+        f = F.fns.get(fk)
+        if f is None:
+            continue
+        for w in cfg.field_writes(f, SCANNER, "adjacent_value_allowed_at"):
+            if w["kind"] != "assign":
+                continue
+            n += 1
+            wb = w["bb"]
+            after = cfg.blocks_reachable_from(f, [wb]) | {wb}
+            late = []
+            for bb, t, ck, fr in f.calls():
+                if bb in after and ck and (ck.startswith((S + "skip", S + "scan_", S + "read_")) or (fr and fr.get("trait") == INPUT and fr["name"].startswith(("skip", "raw_read", "fetch_while")))):
+                    late.append(short(ck))
+            rep.check(not late, rule, short(fk), "the position after a JSON-like key is recorded before %s has run: blanks between the key and ':' are not "
+                      "counted in, `[a] :b` / `\"a\" :1` stop being key/value pairs" % ", ".join(sorted(set(late))), site=site(f, w["stmt"]["sp"]))
+    return n
+
+
 def new_report(tier):
     return make_report(PID, tier, "other", [
         "RFC 8259 section 7 (string escapes) and section 3 (literal names), transcribed in this rule pack",
@@ -113,6 +138,7 @@ def run(tier):
             okw = okw and bool(pushes) and all(pb in cfg.blocks_reachable_from(f, [wb]) for pb in pushes)
         rep.check(okw, "adjacent-value-recorded", short(fk), "the position after a JSON-like key is no longer recorded in adjacent_value_allowed_at on every "
                   "accepting path: `\"a\":1` inside a flow collection stops being a key/value pair", site=f.span, detail=det)
+    rep.floor("writes of the adjacent-value position", adjacent_position_is_final(rep, F), 2)
     # (d) inside a flow collection a pending simple key is never given up because of its length or because it spans lines
     # (JSON member names and their ':' may be arbitrarily far apart): in stale_simple_keys every `possible = false` and every error
     # is dominated by the true edge of `flow_level == 0`
